@@ -44,11 +44,28 @@ func (cs *c06Case) applyConf(mode string) {
 		ss = append(ss, strconv.Itoa(s))
 	}
 	conf.Options.FilterSlot = ss
+	conf.Options.TargetDB = cs.f.TargetDB
 	conf.Options.TargetVersion = "5.0.7"
 	conf.Options.TargetReplace = true
 	conf.Options.SourceAddressList = []string{srcAddr}
 	conf.Options.TargetAddressList = []string{tgtAddr}
 	conf.Options.SourcePasswordRaw, conf.Options.TargetPasswordRaw = srcPassword, tgtPassword
+}
+
+// idOf maps an observed (db, key) on the target back to the source key id "srcdb/key".
+func (cs *c06Case) idOf(db int, key string) string {
+	if cs.f.TargetDB == -1 {
+		return fmt.Sprintf("%d/%s", db, key)
+	}
+	for _, k := range cs.keys {
+		if k.key == key {
+			if db != cs.f.TargetDB {
+				return fmt.Sprintf("wrong-db-%d/%s", db, key)
+			}
+			return fmt.Sprintf("%d/%s", k.db, key)
+		}
+	}
+	return fmt.Sprintf("%d/%s", db, key)
 }
 
 // passes is the statement's predicate for one key on one path.
@@ -119,10 +136,14 @@ func (cs *c06Case) rdb() []byte {
 }
 
 // present lists which of the case's keys are on the target (db/key).
-func present(tgt *modelredis.Server, keys []c06Key) map[string]bool {
+func present(tgt *modelredis.Server, keys []c06Key, targetDB int) map[string]bool {
 	out := map[string]bool{}
 	for _, k := range keys {
-		if tgt.Get(k.db, k.key) != nil {
+		db := k.db
+		if targetDB != -1 {
+			db = targetDB
+		}
+		if tgt.Get(db, k.key) != nil {
 			out[fmt.Sprintf("%d/%s", k.db, k.key)] = true
 		}
 	}
@@ -169,6 +190,14 @@ func runC06(c *core.Ctx) *core.Violation {
 			cs.keys = append(cs.keys, k)
 		}
 	}
+	if t.Choose(4) == 3 {
+		// a fixed target database (possibly one whose number the db filter excludes as a source db);
+		// key names are made unique across source dbs so that they cannot collide there
+		cs.f.TargetDB = []int{0, 1, 2, 3}[t.Choose(4)]
+		for i := range cs.keys {
+			cs.keys[i].key += fmt.Sprintf("~%d", cs.keys[i].db)
+		}
+	}
 	ns := t.Choose(3)
 	for i := 0; i < ns; i++ {
 		cs.scripts = append(cs.scripts, fmt.Sprintf("return %d", i))
@@ -184,7 +213,7 @@ func runC06(c *core.Ctx) *core.Violation {
 		}
 	}
 	c.Sample = map[string]interface{}{"filters": fmt.Sprintf("keyW=%q keyB=%q dbW=%v dbB=%v lua=%v slots=%v", cs.f.KeyWhite, cs.f.KeyBlack, cs.f.DBWhite, cs.f.DBBlack, cs.f.FilterLua, cs.slots),
-		"keys": fmt.Sprintf("%v", cs.keys), "scripts": len(cs.scripts)}
+		"keys": fmt.Sprintf("%v", cs.keys), "scripts": len(cs.scripts), "target_db": cs.f.TargetDB}
 	lc := env.CaptureLog("info", 4<<20)
 	got := map[string]map[string]bool{}
 	scriptsOn := map[string]int{}
@@ -198,7 +227,17 @@ func runC06(c *core.Ctx) *core.Violation {
 		var stream []byte
 		cur := -1
 		ks := append([]c06Key(nil), cs.keys...)
-		sort.SliceStable(ks, func(i, j int) bool { return ks[i].db < ks[j].db })
+		if t.Choose(2) == 1 {
+			// any order of SELECT switches (a db may be selected again later)
+			p := t.Perm(len(ks))
+			sh := make([]c06Key, len(ks))
+			for i, j := range p {
+				sh[i] = ks[j]
+			}
+			ks = sh
+		} else {
+			sort.SliceStable(ks, func(i, j int) bool { return ks[i].db < ks[j].db })
+		}
 		for _, k := range ks {
 			if k.db != cur {
 				stream = append(stream, respCmd(bs("SELECT", strconv.Itoa(k.db))...)...)
@@ -241,7 +280,7 @@ func runC06(c *core.Ctx) *core.Violation {
 				case "script":
 					scriptsOn["full"]++
 				case "restore", "set":
-					full[fmt.Sprintf("%d/%s", a.DB, string(a.Args[1]))] = true
+					full[cs.idOf(a.DB, string(a.Args[1]))] = true
 				}
 			}
 			got["full"] = full
@@ -251,7 +290,7 @@ func runC06(c *core.Ctx) *core.Violation {
 			for _, a := range e.IncrLog() {
 				switch a.Name() {
 				case "set":
-					inc[fmt.Sprintf("%d/%s", a.DB, string(a.Args[1]))] = true
+					inc[cs.idOf(a.DB, string(a.Args[1]))] = true
 				case "eval", "script", "evalsha":
 					nsc++
 				case "opinfo":
@@ -296,7 +335,7 @@ func runC06(c *core.Ctx) *core.Violation {
 				viol = core.Violate("abort", "restore", "restore mode did not finish: %s", lc.LastPanic())
 				return
 			}
-			got["restore"] = present(tgt, cs.keys)
+			got["restore"] = present(tgt, cs.keys, cs.f.TargetDB)
 			scriptsOn["restore"] = len(tgt.Scripts)
 		})
 		c.Absorb(s)
@@ -327,7 +366,7 @@ func runC06(c *core.Ctx) *core.Violation {
 				viol = core.Violate("abort", "rump", "rump did not finish: %s", lc.LastPanic())
 				return
 			}
-			got["rump"] = present(tgt, cs.keys)
+			got["rump"] = present(tgt, cs.keys, cs.f.TargetDB)
 		})
 		c.Absorb(s)
 		if viol != nil {
@@ -365,6 +404,9 @@ func runC06(c *core.Ctx) *core.Violation {
 	if cs.slots != nil {
 		c.Probe("slot_filter")
 	}
+	if cs.f.TargetDB != -1 {
+		c.Probe("target_db")
+	}
 	for _, k := range cs.keys {
 		if strings.HasPrefix(k.key, "redis-shake-checkpoint") {
 			c.Probe("checkpoint_key_in_keyspace")
@@ -400,6 +442,6 @@ func init() {
 			"rump and incremental sync copy checkpoint-named keys when no key filter is configured, as the statement says",
 		},
 		RealVsStub: "real: filter package via dbSync full + incremental phases, run.CmdRestore, run.CmdRump; simulated: TCP, master/source/target models, clock, scheduling",
-		ProbeNames: []string{"key_filter", "slot_filter", "checkpoint_key_in_keyspace"},
+		ProbeNames: []string{"key_filter", "slot_filter", "checkpoint_key_in_keyspace", "target_db"},
 	})
 }
